@@ -10,7 +10,14 @@ No interpretation happens here except:
   * `x.append(e)` as a statement, `x[i] = e`, `x[:k] = e` become the mutation statements of PyLite,
     which rebind x.  That is faithful only if no alias of the object is live, so they are admitted
     only when x provably (syntactically, see Fresh) holds a fresh list / array that has not escaped.
-  * the message expression of a `raise` is dropped (PyLite has one exception)."""
+  * the message expression of a `raise` is dropped (PyLite has one exception);
+  * `f(a, *rest)` (one starred argument, last, no keywords) becomes ECallStar; a comprehension with a
+    tuple target becomes ECompT; `zip(..)` is admitted only where it is consumed by iteration;
+  * `self.m(args)` as a statement becomes SMethod (the method may mutate self: PyLite rebinds self to what
+    the specification "mut:m" returns), admitted only when no alias of self can exist (see
+    Translator.self_method_call);
+  * for a method, the class's constant attributes (`name = <literal>` in the class body) are emitted as
+    `classattrs_<Class>_<method>` next to `bases_..`."""
 import ast
 import os
 from fractions import Fraction
@@ -75,6 +82,7 @@ class Translator:
     def __init__(self, modules):
         self.modules = set(modules)     # names bound by import statements of the file
         self.locals = set()             # names bound in the function being translated
+        self.iterated = set()           # ids of the expressions that are only iterated (for / comprehension / tuple(..))
 
     def dotted(self, node):
         """a.b.c rooted at an imported module -> 'a.b.c', else None"""
@@ -112,6 +120,8 @@ class Translator:
                 return self.comp("CAll" if f.id == "all" else "CAny", g.generators, g.elt)
             # tuple(...) / list(...) consume the whole generator: a list comprehension
             return "(ECall %s %s)" % (cstr(f.id), lst([self.comp("CList", g.generators, g.elt)]))
+        if isinstance(f, ast.Name) and f.id in ("tuple", "list") and len(pos) == 1 and not e.keywords:
+            self.iterated.add(id(pos[0]))
         # a builtin function passed by keyword (sorted(x, key=sum)) is part of the callee's name
         fkw = [k for k in e.keywords if isinstance(k.value, ast.Name) and k.value.id in FUNC_NAMES
                and k.value.id not in self.locals]
@@ -121,6 +131,10 @@ class Translator:
             args = []
         else:
             args = [self.expr(a) for a in pos] + [self.expr(k.value) for k in vkw]
+        if isinstance(f, ast.Name) and f.id == "zip" and f.id not in self.locals and id(e) not in self.iterated:
+            # zip(..) is an iterator; PyLite renders it as a list, which is the same only when it is consumed
+            # by iteration: as the iterable of a for / comprehension or the argument of tuple(..) / list(..)
+            raise Unsupported("zip(..) used other than as the iterable of a for / comprehension / tuple() / list()")
         if isinstance(f, ast.Name):
             if f.id == "isinstance":
                 # isinstance(x, str|tuple|list): the class is part of the callee's name
@@ -145,6 +159,7 @@ class Translator:
         all / any, where any(e for i in A for j in B) is any(any(e for j in B) for i in A) (same order of
         evaluation, same laziness)"""
         g = generators[0]
+        self.iterated.add(id(g.iter))
         if g.ifs or g.is_async:
             raise Unsupported("comprehension form")
         if not isinstance(g.target, ast.Name):
@@ -327,6 +342,7 @@ class Translator:
             elif isinstance(s, ast.For):
                 if s.orelse:
                     raise Unsupported("for ... else")
+                self.iterated.add(id(s.iter))
                 out.append("SFor %s %s %s" % (lst([cstr(n) for n in target_names(s.target)]), self.expr(s.iter),
                                               self.stmts(s.body)))
             elif isinstance(s, ast.Raise):
